@@ -19,6 +19,7 @@ import subprocess
 import sys
 
 ID = 'C17'
+PYTEST_LAW = 'C17'     # also run /repo's own tests with this property's law attached
 RULE = ('the same seeded case list (a decoded WF-T graph g and a hand-built shuffled WF-G graph h per '
         'case, AMR and default models) executed in 6 worker interpreters: PYTHONHASHSEED in '
         '{0, 1, 7, 123, random} plus one run with shuffled operation order; 24 operations per case '
@@ -133,7 +134,8 @@ def worker(argv):
     import logging
     logging.disable(logging.CRITICAL)
     import penman
-    assert penman.__file__.startswith('/repo/')
+    from pmon import core as _core
+    assert penman.__file__.startswith(_core.REPO + '/')
     from pmon import canon
     seed, start, count, mode = int(argv[0]), int(argv[1]), int(argv[2]), argv[3]
     out = sys.stdout
@@ -287,7 +289,7 @@ def oracle(ctx, kind, p):
         outs = []
         for hs in ('0', '4242'):
             r = subprocess.run([sys.executable, '-m', 'penman'] + opts, input=text.encode('utf-8'),
-                               capture_output=True, env=dict(_env(hs), PYTHONPATH='/repo', PYTHONIOENCODING='utf-8'),
+                               capture_output=True, env=dict(_env(hs), PYTHONPATH=core.REPO, PYTHONIOENCODING='utf-8'),
                                cwd='/', timeout=300)
             outs.append((r.returncode, r.stdout))
         ctx.count('cli_pairs')
